@@ -63,7 +63,7 @@ fn bin<M: Serialize>(m: &M) -> cosmwasm_std::Binary {
 }
 
 /// a payload for (contract, variant) that is valid in the prepared world
-fn payload(f: &Full, c: &str, v: &str, k: u128) -> cosmwasm_std::Binary {
+fn payload(f: &Full, c: &str, v: &str, k: u128, sender: &Addr) -> cosmwasm_std::Binary {
     use white_whale_std::pool_network::factory::ExecuteMsg as PF;
     use white_whale_std::vault_network::vault_factory::ExecuteMsg as VF;
     let pf = pool_fee(dec_atomics(ONE / 1000 + k), dec_atomics(ONE / 400), dec_atomics(k));
@@ -162,7 +162,8 @@ fn payload(f: &Full, c: &str, v: &str, k: u128) -> cosmwasm_std::Binary {
             owner: None, vault_factory_addr: Some(f.hub.vault_factory.to_string()),
         }),
         ("vault_router", "next_loan") => bin(&white_whale_std::vault_network::vault_router::ExecuteMsg::NextLoan {
-            initiator: f.user.clone(), source_vault: f.vault.to_string(), source_vault_asset_info: f.whale.info(),
+            // the most adversarial payload: the caller names itself as the source vault of a registered asset
+            initiator: f.user.clone(), source_vault: sender.to_string(), source_vault_asset_info: f.whale.info(),
             payload: vec![], to_loan: vec![], loaned_assets: vec![(f.vault.to_string(), f.whale.asset(0))],
         }),
         ("vault_router", "complete_loan") => bin(&white_whale_std::vault_network::vault_router::ExecuteMsg::CompleteLoan {
@@ -258,9 +259,9 @@ pub fn run_schedule(rec: &mut Rec, seed: u64, run: u64, line: &str) {
         let variant = call["v"].as_str().unwrap();
         let role = call["role"].as_str().unwrap();
         let k: u128 = r.gen_range(0..1000);
-        let msg = payload(&f, &c, variant, k);
         let target = addr_of(&f, &c);
         let sender = sender_of(&f, &c, role);
+        let msg = payload(&f, &c, variant, k, &sender);
         let dpre = f.w.digest();
         let rs = if role == "sibling" {
             // the adversary contract forwards the message: the callee sees a contract as sender
